@@ -11,10 +11,14 @@
 package main
 
 import (
+	"bytes"
 	"fmt"
 	"hash/fnv"
 	"math"
+	"os"
+	"os/exec"
 	"reflect"
+	"regexp"
 	"strings"
 	"unsafe"
 
@@ -24,7 +28,7 @@ import (
 	v3 "github.com/deadsy/sdfx/vec/v3"
 	"github.com/deadsy/sdfx/verifrt/vsync"
 
-	"verif/lib/shapes"
+	"verif/lib/c10sub"
 	"verif/lib/vlib"
 )
 
@@ -115,97 +119,6 @@ func valueString(v reflect.Value) string {
 	return v.Type().String()
 }
 
-type subject struct {
-	Name string `json:"shape"`
-	Dim  int    `json:"dim"`
-	b2   func() (sdf.SDF2, error)
-	b3   func() (sdf.SDF3, error)
-}
-
-func subjects() []subject {
-	var out []subject
-	l2, l3 := shapes.LeafNodes2(), shapes.LeafNodes3()
-	// every leaf, and two instances of every combinator class (root constructor + parameter class)
-	perClass := map[string]int{}
-	class := func(name, root string) string {
-		if i := strings.Index(name, "["); i > 0 {
-			if j := strings.Index(name, "]"); j > i {
-				p := name[i+1 : j]
-				if k := strings.IndexAny(p, "(=0123456789 -"); k > 0 {
-					p = p[:k]
-				}
-				return root + "[" + p + "]"
-			}
-		}
-		return root
-	}
-	for _, n := range shapes.Nodes2(false) {
-		k := class(n.Name, n.Root)
-		if n.Depth == 0 || (n.Depth == 1 && perClass[k] < 2) {
-			perClass[k]++
-			out = append(out, subject{Name: n.Name, Dim: 2, b2: n.Build})
-		}
-	}
-	for _, n := range shapes.Nodes3(false) {
-		k := class(n.Name, n.Root)
-		if n.Depth == 0 || (n.Depth == 1 && perClass[k] < 2) {
-			perClass[k]++
-			out = append(out, subject{Name: n.Name, Dim: 3, b3: n.Build})
-		}
-	}
-	// wrappers and size thresholds that the tree menus do not contain
-	c1, _ := sdf.Circle2D(0.4)
-	for _, k := range []int{2, 8, 9, 17} {
-		k := k
-		out = append(out, subject{Name: fmt.Sprintf("Union2D(%d circles)", k), Dim: 2, b2: func() (sdf.SDF2, error) {
-			var ops []sdf.SDF2
-			for i := 0; i < k; i++ {
-				ops = append(ops, sdf.Transform2D(c1, sdf.Translate2d(v2.Vec{X: float64(i), Y: float64(i%3) * 0.5})))
-			}
-			return sdf.Union2D(ops...), nil
-		}})
-		out = append(out, subject{Name: fmt.Sprintf("Union3D(%d spheres)", k), Dim: 3, b3: func() (sdf.SDF3, error) {
-			s, _ := sdf.Sphere3D(0.4)
-			var ops []sdf.SDF3
-			for i := 0; i < k; i++ {
-				ops = append(ops, sdf.Transform3D(s, sdf.Translate3d(v3.Vec{X: float64(i), Y: float64(i%3) * 0.5})))
-			}
-			return sdf.Union3D(ops...), nil
-		}})
-	}
-	for _, txt := range []string{"ABCDEFGHIJKL", "iii"} {
-		txt := txt
-		out = append(out, subject{Name: fmt.Sprintf("Text2D(%q)", txt), Dim: 2, b2: func() (sdf.SDF2, error) {
-			f, err := sdf.LoadFont(shapes.FontPath)
-			if err != nil {
-				return nil, err
-			}
-			return sdf.Text2D(f, sdf.NewText(txt), 10)
-		}})
-	}
-	for _, l := range shapes.Rep3(l3) {
-		l := l
-		out = append(out, subject{Name: "NewVoxelSDF3[3](" + l.Name + ")", Dim: 3, b3: func() (sdf.SDF3, error) {
-			s, err := l.Build()
-			if err != nil {
-				return nil, err
-			}
-			return sdf.NewVoxelSDF3(s, 3, nil), nil
-		}})
-	}
-	for _, l := range shapes.Rep2(l2) {
-		l := l
-		out = append(out, subject{Name: "Extrude3D[1](Cache2D(" + l.Name + "))", Dim: 3, b3: func() (sdf.SDF3, error) {
-			s, err := l.Build()
-			if err != nil {
-				return nil, err
-			}
-			return sdf.Extrude3D(sdf.Cache2D(s), 1), nil
-		}})
-	}
-	return out
-}
-
 type scen struct {
 	Kind    string `json:"kind"` // evaluate, render, dcache3, dcache2
 	Subject string `json:"subject"`
@@ -213,18 +126,10 @@ type scen struct {
 	Prefix  []int  `json:"schedule_prefix,omitempty"`
 }
 
-func pts3(bb sdf.Box3) []v3.Vec {
-	c, s := bb.Center(), bb.Size()
-	return []v3.Vec{c, bb.Min.Add(s.MulScalar(0.3)), bb.Max.Add(s.MulScalar(0.1)), c.Add(v3.Vec{X: 0.25 * s.X})}
-}
-func pts2(bb sdf.Box2) []v2.Vec {
-	c, s := bb.Center(), bb.Size()
-	return []v2.Vec{c, bb.Min.Add(s.MulScalar(0.3)), bb.Max.Add(s.MulScalar(0.1)), c.Add(v2.Vec{X: 0.25 * s.X})}
-}
-
 func main() {
 	c := vlib.Start("C10")
-	subs := subjects()
+	subs := c10sub.Subjects(c.Thorough())
+	thorough := c.Thorough()
 	type unit struct {
 		kind    string
 		sub     int
@@ -233,7 +138,7 @@ func main() {
 	var units []unit
 	for i := range subs {
 		units = append(units, unit{"evaluate", i, 2})
-		if i%7 == 0 {
+		if i%7 == 0 || (thorough && i%2 == 0) {
 			units = append(units, unit{"evaluate", i, 3})
 		}
 	}
@@ -259,13 +164,13 @@ func main() {
 					mismatch = ""
 					var wg vsync.WaitGroup
 					if sb.Dim == 2 {
-						s, err := sb.b2()
+						s, err := sb.B2()
 						if err != nil || s == nil {
 							mismatch = "build"
 							return
 						}
 						built = s
-						ps := pts2(s.BoundingBox())
+						ps := c10sub.Pts2(s.BoundingBox(), thorough)
 						hashBefore = deepHash(s)
 						var sv []float64
 						for _, p := range ps {
@@ -287,13 +192,13 @@ func main() {
 							})
 						}
 					} else {
-						s, err := sb.b3()
+						s, err := sb.B3()
 						if err != nil || s == nil {
 							mismatch = "build"
 							return
 						}
 						built = s
-						ps := pts3(s.BoundingBox())
+						ps := c10sub.Pts3(s.BoundingBox(), thorough)
 						hashBefore = deepHash(s)
 						var sv []float64
 						for _, p := range ps {
@@ -407,6 +312,10 @@ func main() {
 			if st.NonDetermin != "" {
 				j.HarnessError("%s: %s", name, st.NonDetermin)
 			}
+			if st.Capped {
+				j.Capped = true
+				j.Count("capped-explorations", 1)
+			}
 			if mismatch == "build" {
 				j.Count("rejected-by-constructor", 1)
 				continue
@@ -421,7 +330,7 @@ func main() {
 					j.HarnessError("%s (%s): Evaluate changed the shape's reachable state but the instrumentation saw no write", name, typ)
 				}
 				// a mutating shape: explore its interleavings too
-				st2 := vsync.ExploreAll(vsync.Options{Bound: 2, Stop: c.Expired, MaxExec: 3000, Prune: true}, body, func(x *vsync.Execution, prefix []int) bool {
+				st2 := vsync.ExploreAll(vsync.Options{Bound: 2, Stop: c.Expired, MaxExec: 200000, Prune: true}, body, func(x *vsync.Execution, prefix []int) bool {
 					r := sc
 					r.Prefix = append([]int{}, x.Choices...)
 					if len(x.Races) > 0 {
@@ -438,6 +347,10 @@ func main() {
 					}
 					return true
 				})
+				if st2.Capped {
+					j.Capped = true
+					j.Count("capped-explorations", 1)
+				}
 				j.States += st2.Executions
 				j.Transitions += st2.Steps
 			}
@@ -451,6 +364,7 @@ func main() {
 			}
 		}
 	})
+	raceSubjects, raceReports := racePass(c, len(subs))
 	types := 0
 	for k := range m.Counters {
 		if strings.HasPrefix(k, "type|") {
@@ -463,9 +377,69 @@ func main() {
 		Rule:       "states = executions (explored schedules) of 2-3 logical threads evaluating one shape on colliding points; transitions = scheduler steps + instrumented memory access events; non-trivial = distinct shapes",
 		Samples:    m.Samples,
 		Exhaustive: true,
-		Bounds:     map[string]any{"subjects": len(subs), "threads": "2 (every 7th shape also 3)", "points": 4, "rounds": 2, "preemption_bound": 1, "renderer_scenarios": "uniform render of an extruded cached / plain profile with 2 workers, dcache2/3 from two threads"},
-		Extra:      map[string]any{"counters": m.Counters, "concrete_types": types},
+		Bounds:     map[string]any{"subjects": len(subs), "threads": "2 (every 7th shape also 3)", "points": 4, "rounds": 2, "preemption_bound": "0 for shapes that neither synchronise nor mutate (one execution decides a happens-before race), 2 for shapes whose Evaluate mutates state, 1 for the renderer scenarios", "max_executions_per_exploration": "2000 / 200000 (a cap that is hit is reported as exhaustive:false)", "renderer_scenarios": "uniform render of an extruded cached / plain profile with 2 workers, dcache2/3 from two threads"},
+		Extra: map[string]any{"counters": m.Counters, "concrete_types": types,
+			"auxiliary_free_running_race_detector_pass": map[string]any{"subjects_run": raceSubjects, "race_reports": raceReports, "threads": 4, "note": "same subjects, real goroutines, binary built with -race from the plain tree; not an enumeration of schedules"}},
 		Assumptions: []string{"a data race is a pair of instrumented accesses to the same location, at least one a write, unordered by happens-before; instrumented = package-level variables and receiver/parameter fields of sdf, render and obj that are written outside constructors",
 			"state reachable only through dependencies (rtreego, freetype) is covered by the deep-hash guard, not by access events", "weak-memory effects are not modelled"},
 	})
+}
+
+// racePass runs the auxiliary free-running pass: the binary built with -race from the plain tree
+// (checks/C10/racepass) evaluates the same subjects on real goroutines.  Every "WARNING: DATA RACE"
+// report is attributed to the subject announced before it and to the first sdfx frame of its stacks.
+func racePass(c *vlib.Ctx, nsub int) (int, int) {
+	bin := os.Getenv("VERIF_RACEPASS_BIN")
+	if bin == "" {
+		c.HarnessError("auxiliary race-detector binary was not built (VERIF_RACEPASS_BIN unset)")
+		return 0, 0
+	}
+	cmd := exec.Command(bin, c.Tier)
+	cmd.Env = append(os.Environ(), "GORACE=halt_on_error=0 exitcode=0", "VERIF_WORKER=")
+	var stderr bytes.Buffer
+	cmd.Stderr = &stderr
+	err := cmd.Run()
+	out := stderr.String()
+	if err != nil {
+		tail := out
+		if len(tail) > 1500 {
+			tail = tail[len(tail)-1500:]
+		}
+		c.Violation("fault|free-running-concurrent-Evaluate", fmt.Sprintf("the free-running pass died: %v: %s", err, tail), map[string]any{"kind": "racepass"})
+		return 0, 0
+	}
+	if !strings.Contains(out, "@@DONE") {
+		c.HarnessError("auxiliary race-detector pass did not finish")
+	}
+	subject, run, reports := "", 0, 0
+	frame := regexp.MustCompile(`github\.com/deadsy/sdfx/([a-z0-9/]+)\.((?:\(\*?[A-Za-z0-9_]+\)\.)?[A-Za-z0-9_]+)`)
+	lines := strings.Split(out, "\n")
+	for i := 0; i < len(lines); i++ {
+		l := lines[i]
+		if strings.HasPrefix(l, "@@SUBJECT ") {
+			subject = strings.SplitN(l, " ", 3)[2]
+			run++
+			continue
+		}
+		if !strings.HasPrefix(l, "WARNING: DATA RACE") {
+			continue
+		}
+		reports++
+		site := "?"
+		var block []string
+		for k := i + 1; k < len(lines) && !strings.HasPrefix(lines[k], "=================="); k++ {
+			block = append(block, lines[k])
+			if site == "?" {
+				if m := frame.FindStringSubmatch(lines[k]); m != nil && !strings.HasPrefix(m[1], "verifrt") {
+					site = m[1] + "." + m[2]
+				}
+			}
+		}
+		if len(block) > 40 {
+			block = block[:40]
+		}
+		c.Violation("data-race|race-detector|"+site, fmt.Sprintf("%s: the Go race detector reports a data race between concurrent Evaluate calls at %s", subject, site),
+			map[string]any{"kind": "racepass", "subject": subject, "report": block})
+	}
+	return run, reports
 }
